@@ -388,6 +388,9 @@ func decisionInputsOf(c *Ctx, r *Report, clause string, fis []*FuncInfo) {
 				w.withHost(fi.Key, func() { a = w.exprAtomsDeep(rf, ce) })
 				data := newAstAtoms()
 				for f := range a.Fields {
+					if i := strings.LastIndex(f, "."); i > 0 && w.isNewTypeName(f[:i]) {
+						continue // a field of a new carrier type
+					}
 					data.Fields[f] = true
 				}
 				for cl := range a.Calls {
